@@ -139,7 +139,15 @@ const hSections = 14
 //vf:shards 16
 //vf:steps 50000000
 func VfC19_WriteTo() {
-	cfg := vfChoice("cfg", 1+2*hSections)
+	ncfg := 1 + 2*hSections
+	if vfTier() > 0 {
+		ncfg++ // thorough: one more configuration with an entity of more than 64 KiB (minutes of interpretation)
+	}
+	cfg := vfChoice("cfg", ncfg)
+	if cfg == 1+2*hSections {
+		hC19Large()
+		return
+	}
 	m := hModule(func(k int) bool {
 		switch {
 		case cfg == 0:
@@ -253,4 +261,30 @@ func VfC19_History() {
 	vfAssert("C19.history.no-error-after-earlier-failure", err2 == nil)
 	vfAssert("C19.history.whole-text-delivered", string(ok.got) == want)
 	vfAssert("C19.history.count-equals-length", n2 == int64(len(want)))
+}
+
+// hC19Large: one top-level entity of more than 64 KiB between two small ones
+// (size thresholds in the writer path): the contract is the same.
+func hC19Large() {
+	m := NewModule()
+	m.NewGlobalDef(hLetter("g"), constant.NewInt(types.I32, 7))
+	big := make([]byte, 70000)
+	for i := range big {
+		big[i] = 'a' + byte(i%26)
+	}
+	f := m.NewFunc(string(big), types.Void)
+	f.NewBlock("entry").NewRet(nil)
+	m.NewGlobalDef("tail", constant.NewInt(types.I32, 1))
+	want := m.String()
+	w := &hWriter{}
+	n, err := m.WriteTo(w)
+	vfReach("C19.writeto.large")
+	vfAssert("C19.count-is-accepted-bytes", n == w.total)
+	if w.failed {
+		vfAssert("C19.first-error-returned", err == error(hErr))
+		vfAssert("C19.count-bounded", vfAnd(int64(len(w.full)) <= n, n <= int64(len(w.full)+len(w.failChunk))))
+	} else {
+		vfAssert("C19.no-error", err == nil)
+		vfAssert("C19.count-equals-length", n == int64(len(want)))
+	}
 }
